@@ -190,6 +190,18 @@ impl Trace {
             });
         }
     }
+    /// Writes the recorded events into the replay trace (no-op unless a replay file is being written).
+    pub fn dump(&self, label: &str) {
+        if !crate::harness::trace_on() {
+            return;
+        }
+        crate::harness::trace_note(format!("-- {label}: {} simulated I/O calls", self.seq));
+        for e in &self.events {
+            let ret = if e.ret < 0 { format!("ERR#{}", -e.ret - 1) } else { e.ret.to_string() };
+            crate::harness::trace_note(format!("   #{} {} off={} req={} -> {}", e.seq, e.op, e.off, e.req, ret));
+        }
+    }
+
     pub fn note(&mut self, what: &str) {
         self.digest = fnv1a_add(self.digest, what.as_bytes());
     }
